@@ -1,6 +1,9 @@
 package main
 
 import (
+	"github.com/mycoria/mycoria/storage"
+	"strings"
+	"bytes"
 	"context"
 	"crypto/ed25519"
 	"crypto/rand"
@@ -244,6 +247,84 @@ func (e *c01Env) viaHopRecord(id c01Ident, origin *m.Address) (code int, stored 
 	return 1, false
 }
 
+// viaHopChain presents a chain of hop identities (outermost first, after the delivering peer P's
+// own record) in one announcement and returns, per hop, the identity the router's state binds to
+// that hop's address afterwards (nil: no record / session).
+func (e *c01Env) viaHopChain(chain []c01Ident, origin *m.Address) (panicked bool, bound []*m.PublicAddress) {
+	body, _ := cbor.Marshal(&router.AnnouncePingMsg{Info: &m.RouterInfo{}, ReturnLabel: 5, Expires: time.Now().Add(10 * time.Minute)})
+	t := nextCraftTime()
+	base, err := craftPing(pingSpec{from: origin, dst: m.RouterAddress, msgType: frame.RouterHopPingDeprecated, pingType: "announce", body: body, seqTime: t})
+	if err != nil {
+		return false, make([]*m.PublicAddress, len(chain))
+	}
+	pf, err := craftBuilder.ParseFrame(append([]byte(nil), base...), nil, 0)
+	if err != nil {
+		return false, make([]*m.PublicAddress, len(chain))
+	}
+	ctxb := make([]byte, 16+8+64)
+	copy(ctxb[:16], origin.IP.AsSlice())
+	binary.BigEndian.PutUint64(ctxb[16:24], uint64(t.UnixMilli()))
+	copy(ctxb[24:], pf.AuthData())
+	mk := func(pub m.PublicAddress, priv ed25519.PrivateKey, next []byte) []byte {
+		att, _ := cbor.Marshal(router.AnnouncePingAttachment{Router: pub, Delay: 5, ForwardLabel: 7, ReturnLabel: 8, NextAttachment: next})
+		var sig []byte
+		if len(priv) == ed25519.PrivateKeySize {
+			sig, _ = priv.Sign(nil, att, &ed25519.Options{Context: string(ctxb)})
+		}
+		if len(sig) != 64 {
+			sig = make([]byte, 64)
+		}
+		return append(att, sig...)
+	}
+	var next []byte
+	for i := len(chain) - 1; i >= 0; i-- {
+		next = mk(chain[i].pub, chain[i].priv, next)
+	}
+	outer := mk(e.P.id.PublicAddress, e.P.id.PrivateKey, next)
+	full := append(append([]byte(nil), base...), outer...)
+	res := e.R.inject(full, e.R.links[e.P.id.IP])
+	e.w.queue = nil
+	bound = make([]*m.PublicAddress, len(chain))
+	for i, h := range chain {
+		if !h.pub.IP.IsValid() {
+			continue
+		}
+		if s := e.R.st.GetSession(h.pub.IP); s != nil {
+			a := *s.Address()
+			bound[i] = &a
+		}
+	}
+	return res.panicked(), bound
+}
+
+// bindingViolations checks every record the router's state holds: the identity bound to an
+// address has that very address and verifies.
+func (e *c01Env) bindingViolations() []string {
+	var out []string
+	q := storage.NewRouterQuery(nil, nil, 100000)
+	if err := e.R.st.QueryRouters(q); err != nil {
+		return nil
+	}
+	for _, sr := range q.Result() {
+		if sr.Address == nil {
+			out = append(out, "stored router without an identity")
+			continue
+		}
+		if err := sr.Address.VerifyAddress(); err != nil {
+			out = append(out, fmt.Sprintf("stored identity for %s does not verify: %v", sr.Address.IP, err))
+		}
+		if s := e.R.st.GetSession(sr.Address.IP); s != nil {
+			if s.Address().IP != s.For() {
+				out = append(out, fmt.Sprintf("the session for %s is bound to the identity of %s", s.For(), s.Address().IP))
+			}
+			if err := s.Address().VerifyAddress(); err != nil {
+				out = append(out, fmt.Sprintf("the identity bound to the session of %s does not verify: %v", s.For(), err))
+			}
+		}
+	}
+	return out
+}
+
 type peeringReq struct {
 	RouterVersion string          `cbor:"v,omitempty"`
 	Universe      string          `cbor:"u,omitempty"`
@@ -436,6 +517,70 @@ func runC01(c *Ctx) error {
 			}
 		}
 		c.Sample(map[string]any{"identity": base.IP.String(), "easing": base.Easing, "variants": len(vars)})
+	}
+
+	// ---------- chains of hop records in one announcement ----------
+	// 2..4 fresh identities unknown to the router (optionally one of them corrupted), all attached
+	// to one announcement: afterwards the router's state must bind every hop's address to that
+	// hop's own identity (or to nothing), never to another record of the same announcement.
+	c.CoqSetup("Prelude SeqCorr Address AddressCorr", "c01_ccase", "c01_cok")
+	for i, n := 0, c.Pick(12, 60); i < n; i++ {
+		env, err := newC01Env(c)
+		if err != nil {
+			return err
+		}
+		k := 2 + c.Rng.IntN(3)
+		var chain []c01Ident
+		for j := 0; j < k; j++ {
+			a, err := newIdentity()
+			if err != nil {
+				return err
+			}
+			chain = append(chain, c01Ident{pub: a.PublicAddress, priv: a.PrivateKey, kind: "valid"})
+		}
+		kind := "all-valid"
+		if i%3 == 1 {
+			// one hop presents another hop's key under its own address
+			j := c.Rng.IntN(k)
+			o := (j + 1) % k
+			chain[j].pub.PublicKey = chain[o].pub.PublicKey
+			chain[j].priv = chain[o].priv
+			chain[j].kind = "key-of-other-hop"
+			kind = fmt.Sprintf("hop%d-key-of-hop%d", j, o)
+		} else if i%3 == 2 {
+			// two records for one address: the genuine one and one with a foreign key
+			j := c.Rng.IntN(k - 1)
+			chain[k-1].pub.IP = chain[j].pub.IP
+			chain[k-1].kind = "address-of-earlier-hop"
+			kind = fmt.Sprintf("hop%d-claims-address-of-hop%d", k-1, j)
+		}
+		pan, bound := env.viaHopChain(chain, origin)
+		c.Eval()
+		c.Count("entry:hop-chain")
+		c.NonTrivial(fmt.Sprintf("hop-chain/%d/%s", k, kind))
+		rep := map[string]any{"entry": "hop-chain", "kind": kind, "hops": k}
+		if pan {
+			c.Violate("an announcement with a chain of hop identities crashed the handler", "crash-hop-chain", rep)
+		}
+		var items, obs []string
+		for j, h := range chain {
+			d, ok := digestFor(&h.pub)
+			items = append(items, fmt.Sprintf("(%s,%s)", coqPub(&h.pub), coqOptBytes(d, ok)))
+			if bound[j] == nil {
+				obs = append(obs, "None")
+				continue
+			}
+			obs = append(obs, "(Some "+coqPub(bound[j])+")")
+			if bound[j].IP != h.pub.IP || !bytes.Equal(bound[j].PublicKey, h.pub.PublicKey) && h.kind == "valid" {
+				rep["hop"] = j
+				rep["bound_to"] = coqPub(bound[j])
+				c.Violate(fmt.Sprintf("after an announcement with %d hop records the router binds the address of hop %d to a different identity (address %s, key %x...)", k, j, bound[j].IP, bound[j].PublicKey[:4]), "binding-hop-chain", rep)
+			}
+		}
+		for _, v := range env.bindingViolations() {
+			c.Violate("router state after an announcement with several hop records: "+v, "binding-state", rep)
+		}
+		c.Case(fmt.Sprintf("([%s],[%s])", strings.Join(items, ";"), strings.Join(obs, ";")), rep)
 	}
 
 	// ---------- generator ----------
